@@ -9,6 +9,7 @@ import (
 	"net/url"
 	"os"
 	"sort"
+	"strconv"
 	"strings"
 
 	"verifharness/gen/vt"
@@ -47,7 +48,24 @@ type c16Row struct {
 }
 
 // key parts whose contents differ only in escaping-relevant characters
-var partText = map[string]string{"p1": "a,b", "p2": "a%2Cb", "p3": "a+b (:)'"} // p3: a plus and a space -- the ids parameter is a QUERY string
+var plainText = map[string]string{"p1": "a,b", "p2": "a%2Cb", "p3": "a+b (:)'"} // p3: a plus and a space -- the ids parameter is a QUERY string
+var partText = plainText
+
+// two key parts (same n) whose generated ComputeComplexKeyHash values are equal, found by search
+var collidingText = map[string]string{"p3": "a+b (:)'"}
+var collidingFound = func() bool {
+	seen := map[any]string{}
+	for i := 0; i < 2000000; i++ {
+		id := "k" + strconv.Itoa(i)
+		h := (&vt.CK{KeyPart: vt.KeyPart{Id: id, N: 1}}).ComputeComplexKeyHash().MapKey()
+		if other, ok := seen[h]; ok {
+			collidingText["p1"], collidingText["p2"] = other, id
+			return true
+		}
+		seen[h] = id
+	}
+	return false
+}()
 var partNum = map[string]int64{"p1": 1, "p2": 1, "p3": -7}
 
 func refEscape(s string, alt bool) string {
@@ -288,90 +306,108 @@ func runC16(file string, stats map[string]int) {
 				return r, e, s, ids, nil
 			}, func(w wireKey) string { return refEscape(partText[w.Part], w.Alt) }},
 		}
-		for _, rn := range runners {
-			// string keys have no params: behaviours that differ only in params collapse; skip those whose
-			// requested list would contain equal strings only through params
-			tr := &cannedTransport{}
-			if rn.name == "collCK-map" {
-				tr.body = strings.ReplaceAll(replyJSON(&row, rn.enc, wireCode), `{"a":`, `{"status":`)
-			} else if rn.name == "collStr" {
-				tr.body = strings.ReplaceAll(replyJSON(&row, rn.enc, wireCode), `{"a":`, `{"status":`)
-				collapsed := false
-				for _, ws := range row.Reply {
-					seen := map[string]bool{}
-					for _, w := range ws {
-						k := rn.enc(w)
-						if seen[k] {
-							collapsed = true
-						}
-						seen[k] = true
-					}
+		for pass := 0; pass < 2; pass++ {
+			if pass == 1 {
+				// once more with key parts whose GENERATED hashes really collide (p1 and p2 share a hash bucket in the
+				// generated key set): equality, not the hash, must tell them apart
+				if !collidingFound {
+					break
 				}
-				if collapsed {
-					continue
-				}
-			} else {
-				tr.body = replyJSON(&row, rn.enc, wireCode)
+				partText = collidingText
 			}
-			results, errs, statuses, ids, err := rn.run(tr)
-			stats["c16_calls"]++
-			rcs := map[string]any{"client": rn.name, "requested": row.Requested, "reply_body": tr.body, "ids_param": tr.rawQuery, "error": fmt.Sprint(err)}
-			dup := row.Failed && !row.Replied
-			if dup {
-				if err == nil || tr.called > 0 {
-					violation("C16/"+rn.name+"/duplicate-not-rejected-before-sending", fmt.Sprintf("duplicate keys: error=%v, requests sent=%d", err, tr.called), rcs)
-				}
-				continue
-			}
-			if !row.Replied {
-				continue
-			}
-			// each id transmitted exactly once
-			q, _ := url.QueryUnescape(tr.rawQuery)
-			for _, k := range row.Requested {
-				var enc string
-				if rn.name == "collCK" {
-					enc = "id:" + partText[k.Part]
-				} else {
-					enc = partText[k.Part]
-				}
-				if n := strings.Count(q, enc); n != 1 && rn.name != "collStr" {
-					violation("C16/"+rn.name+"/id-not-sent-once", fmt.Sprintf("key part %q occurs %d times in the ids parameter %q", partText[k.Part], n, q), rcs)
-				}
-			}
-			if row.Failed {
-				if err == nil {
-					violation("C16/"+rn.name+"/unknown-key-accepted", "the reply mentions a key that was never requested but the call succeeded", rcs)
-				}
-				continue
-			}
-			if err != nil {
-				violation("C16/"+rn.name+"/conforming-reply-rejected", "the call failed although every key of the reply was requested: "+err.Error(), rcs)
-				continue
-			}
-			got := map[string]map[any]int{"results": results, "errors": errs, "statuses": statuses}
-			for field, entries := range row.Filed {
-				if len(got[field]) != len(entries) {
-					violation("C16/"+rn.name+"/entries-lost-or-duplicated/"+field, fmt.Sprintf("%d entries in %s, the reply had %d", len(got[field]), field, len(entries)), rcs)
-					continue
-				}
-				for _, e := range entries {
-					orig := ids[e.Idx-1]
-					v, ok := got[field][orig] // pointer identity for complex keys
-					if !ok {
-						var have []string
-						for k := range got[field] {
-							have = append(have, fmt.Sprintf("%p", k))
-						}
-						sort.Strings(have)
-						violation("C16/"+rn.name+"/not-filed-under-original-key/"+field, fmt.Sprintf("entry for key part %s is not filed under the caller's own key value #%d", e.Wire.Part, e.Idx), rcs)
+			for _, rn := range runners {
+				label := rn.name
+				if pass == 1 {
+					if rn.name == "collStr" {
 						continue
 					}
-					if v != wireCode(field, e.Wire) {
-						violation("C16/"+rn.name+"/entry-attached-to-wrong-key/"+field, fmt.Sprintf("the caller's key #%d holds entry %d, expected %d", e.Idx, v, wireCode(field, e.Wire)), rcs)
+					label += "-colliding-hashes"
+				}
+				// string keys have no params: behaviours that differ only in params collapse; skip those whose
+				// requested list would contain equal strings only through params
+				tr := &cannedTransport{}
+				if rn.name == "collCK-map" {
+					tr.body = strings.ReplaceAll(replyJSON(&row, rn.enc, wireCode), `{"a":`, `{"status":`)
+				} else if rn.name == "collStr" {
+					tr.body = strings.ReplaceAll(replyJSON(&row, rn.enc, wireCode), `{"a":`, `{"status":`)
+					collapsed := false
+					for _, ws := range row.Reply {
+						seen := map[string]bool{}
+						for _, w := range ws {
+							k := rn.enc(w)
+							if seen[k] {
+								collapsed = true
+							}
+							seen[k] = true
+						}
+					}
+					if collapsed {
+						continue
+					}
+				} else {
+					tr.body = replyJSON(&row, rn.enc, wireCode)
+				}
+				results, errs, statuses, ids, err := rn.run(tr)
+				stats["c16_calls"]++
+				rcs := map[string]any{"client": rn.name, "requested": row.Requested, "reply_body": tr.body, "ids_param": tr.rawQuery, "error": fmt.Sprint(err)}
+				dup := row.Failed && !row.Replied
+				if dup {
+					if err == nil || tr.called > 0 {
+						violation("C16/"+label+"/duplicate-not-rejected-before-sending", fmt.Sprintf("duplicate keys: error=%v, requests sent=%d", err, tr.called), rcs)
+					}
+					continue
+				}
+				if !row.Replied {
+					continue
+				}
+				// each id transmitted exactly once
+				q, _ := url.QueryUnescape(tr.rawQuery)
+				for _, k := range row.Requested {
+					var enc string
+					if rn.name == "collCK" {
+						enc = "id:" + partText[k.Part]
+					} else {
+						enc = partText[k.Part]
+					}
+					if n := strings.Count(q, enc); n != 1 && rn.name != "collStr" {
+						violation("C16/"+label+"/id-not-sent-once", fmt.Sprintf("key part %q occurs %d times in the ids parameter %q", partText[k.Part], n, q), rcs)
+					}
+				}
+				if row.Failed {
+					if err == nil {
+						violation("C16/"+label+"/unknown-key-accepted", "the reply mentions a key that was never requested but the call succeeded", rcs)
+					}
+					continue
+				}
+				if err != nil {
+					violation("C16/"+label+"/conforming-reply-rejected", "the call failed although every key of the reply was requested: "+err.Error(), rcs)
+					continue
+				}
+				got := map[string]map[any]int{"results": results, "errors": errs, "statuses": statuses}
+				for field, entries := range row.Filed {
+					if len(got[field]) != len(entries) {
+						violation("C16/"+label+"/entries-lost-or-duplicated/"+field, fmt.Sprintf("%d entries in %s, the reply had %d", len(got[field]), field, len(entries)), rcs)
+						continue
+					}
+					for _, e := range entries {
+						orig := ids[e.Idx-1]
+						v, ok := got[field][orig] // pointer identity for complex keys
+						if !ok {
+							var have []string
+							for k := range got[field] {
+								have = append(have, fmt.Sprintf("%p", k))
+							}
+							sort.Strings(have)
+							violation("C16/"+label+"/not-filed-under-original-key/"+field, fmt.Sprintf("entry for key part %s is not filed under the caller's own key value #%d", e.Wire.Part, e.Idx), rcs)
+							continue
+						}
+						if v != wireCode(field, e.Wire) {
+							violation("C16/"+label+"/entry-attached-to-wrong-key/"+field, fmt.Sprintf("the caller's key #%d holds entry %d, expected %d", e.Idx, v, wireCode(field, e.Wire)), rcs)
+						}
 					}
 				}
 			}
 		}
+		partText = plainText
 	}
 }
